@@ -259,6 +259,7 @@ type Result struct {
 	CommitStart int // index of the first call made by Commit
 	N0          int // canonical ids named before Commit began
 	Items       [][3]any // per store: name, hasTrackedItems, non-add tracked items
+	WriteItems  map[string]int // per store: tracked items with an update/remove action
 	Values      map[string][]sop.UUID // per store: ids of the separate-segment value blobs the commit will write
 	OpResults   []string
 }
@@ -679,6 +680,7 @@ func runTargetArmed(ctx context.Context, e *txk.Env, pr Program, sc *txk.Script,
 	r.WriteSet = common.VerifWriteSet(t.P)
 	r.Deltas = common.VerifCountDeltas(t.P)
 	r.Items = common.VerifItemCounts(t.P)
+	r.WriteItems = common.VerifWriteItemCounts(t.P)
 	r.Values = common.VerifValueIDs(t.P)
 	// name every id the commit can touch, in a fixed order, before Commit begins
 	nameWriteSet(e, r.WriteSet, pre)
